@@ -27,8 +27,15 @@ Definition tilingb (ps : list part) (lo hi : bytes) : bool :=
 
 Definition part_eqb (x y : part) : bool := beqb (fst x) (fst y) && beqb (snd x) (snd y).
 
+(* an empty advertised pair: the scanner's adjusted partitions of the engine's answer are all (c, c) *)
+Definition degenerateb (parts : partition_fn) (c : bytes) : bool :=
+  match adjust_borders (parts c c) with
+  | Some qs => forallb (fun p => part_eqb p (c, c)) qs
+  | None => false
+  end.
+
 Definition pair_validb (parts : partition_fn) (c d : bytes) : bool :=
-  (beqb c d && list_eqb part_eqb (parts c d) [(c, d)]) || tilingb (parts c d) c d.
+  (beqb c d && degenerateb parts c) || tilingb (parts c d) c d.
 
 Definition valid_partsb (parts : partition_fn) (a b : bytes) : bool :=
   tilingb (parts (encode a 0) (encode b 0)) (encode a 0) (encode b 0).
